@@ -33,9 +33,10 @@ struct syn_level {
   unsigned long long memory;  /* memory= attribute (NUMA level or attached numa), 0 = not given */
   unsigned long long size;    /* size= attribute (caches), 0 = not given */
   unsigned long long mscache; /* memorysidecachesize= attribute of the NUMA level or of the attached NUMA nodes, 0 = not given */
+  const char *numa_attrs[3];  /* per-clause attribute text of the attached "[numa(...)]" clauses (family 5), NULL = rendered from memory/mscache */
   const char *indexes;     /* text of an indexes= attribute or NULL */
 };
-struct syn_desc { int nlevels; struct syn_level lv[SYN_MAXLEVELS]; char text[600]; int family; /* 1 full product, 2 deeper restricted product, 3 attached NUMA, 4 indexes/sizes */ };
+struct syn_desc { int nlevels; struct syn_level lv[SYN_MAXLEVELS]; char text[600]; int family; /* 1 full product, 2 deeper restricted product, 3 attached NUMA, 4 indexes/sizes, 5 attached clauses with their own attributes */ };
 typedef void (*syn_cb)(const struct syn_desc *d, uint64_t index, void *ctx);
 /* scope 0: quick, 1: thorough.  Calls cb for every description, returns their number. */
 uint64_t univ_syn_enumerate(int scope, syn_cb cb, void *ctx);
